@@ -160,5 +160,21 @@ CLAIMED = {
         'different one, a pruned-branch carrier of the committed hash, another block hash and a tampered state rejected.',
    note='Trusted: z3; the collision-freeness axiom (instantiated pairwise per path); specs/cellspec.py, dictspec.py, bocspec.py. check_shard_proof and trees of '
         'more than 6 cells are outside the claim.'),
+ 'C19': dict(
+   text='Work = source lines of the repository executed per call (line counter under a cap, same instrument in the symbolic run and in the replay). '
+        'COUNT-FIELD HALF (symbolic): bounded symbolic execution of the real TlSchemas.deserialize, Cell.from_boc/Boc.deserialize and hashmap.parse '
+        'parsers on inputs whose count fields, length prefixes, descriptors and contents are SYMBOLIC: TL inputs = concrete constructor id(s) + up to '
+        '~100 symbolic bytes for vectors of every element kind, nested vectors, byte strings with nested objects and every bundled constructor with a '
+        'vector field (quick: a seeded quarter); BoC inputs = each magic + 0..9 (thorough ..10) symbolic bytes, well-formed prefixes with symbolic counts '
+        'and cells; dictionary inputs = trees of 1..5 cells with all data bits symbolic, key lengths 1..1023: EVERY feasible path (solver-decided forks, '
+        'a loop over a symbolic count forks per iteration) finishes within a*len(input)+b lines. DAG HALF (shape enumerated): maximal-sharing families '
+        '(double/quadruple/mixed chains, ladders, Fibonacci DAGs) to depth 8 with all contents symbolic, depth 12..24 with a symbolic leaf, depth 32..64 '
+        'concrete: hashing, to_boc, from_boc, re-serialisation, copy/slice/hash/depth/order each within a*(n+e)^2+b lines.',
+   note='Trusted: z3; line counts as a proxy of work (C extensions and byte copies count as one line); the budgets (about 10x the largest path observed on '
+        'the repaired tree). NOT decided by the solver: cost as a function of DAG shape - shapes are enumerated families and the deep instances are measured '
+        'runs under the engine (stated in evidence). TL constructor ids at positions a template leaves symbolic are assumed unregistered unless they are the '
+        'template\'s own constructors.',
+   technique='bounded symbolic execution of the real parsers with z3 (SX): every feasible path over symbolic count fields must finish within a line budget; '
+             'bounded runs on enumerated sharing DAG families; replay of models on the untouched library under the same counter'),
 }
 NOT_APPLICABLE = {}
